@@ -132,7 +132,7 @@ func (in *Interp) Drop() {
 
 func (in *Interp) violate(prop, kind, format string, args ...any) {
 	v := Violation{Prop: prop, Kind: kind, Msg: fmt.Sprintf(format, args...), Func: in.curFunc, Line: in.curLine}
-	if in.Judge == "C01" && prop == "C02" {
+	if in.Judge != "" && in.Judge != "C02" && prop == "C02" {
 		// The C01 check judges safety only: a false fact is recorded for the
 		// statistics (C02's own check judges it) and execution goes on, so
 		// that the unsafe access the false fact allows is reached and seen.
